@@ -1,4 +1,4 @@
-\* non-vacuity: with the known wrong design TLC must report ResumeOnlyKeyed violated
+\* non-vacuity: with the known wrong design KeylessResume TLC must report ResumeOnlyKeyed violated
 SPECIFICATION Spec06
 CONSTANTS
   Tags = {"none"}
@@ -6,8 +6,8 @@ CONSTANTS
   Cmds = {"c1"}
   ValidCmds = {"c1"}
   MaxSid = 2
-  MaxTime = 3
-  Duration = 2
+  MaxTime = 2
+  Duration = 1
   Lease = 1
   MaxRec = 1
   Bug = {"KeylessResume"}
